@@ -21,7 +21,7 @@ CLAIMED = {
          "DESIGN.md 4/C05"),
  "C06": ("exploration",
          ENUM + ": all operator sequences x tree shapes x 32 parenthesisation/blank layouts vs reference evaluation of the AST",
-         "All operator sequences over + - * / ^ up to length 4 (quick) / 6 (thorough) with every binary tree shape, each rendered 32 ways (minimal, full and redundant parentheses x blank layouts), plus to/round/floor/ceil variants and random deeper trees; every rendering must give exactly the reference value of the AST (or an error iff the reference errors); every kind of blank the tool's own lexer takes into a blank run (15 kinds), in every position of a run, evaluates as plain spaces do.",
+         "All operator sequences over + - * / ^ up to length 4 (quick) / 6 (thorough) with every binary tree shape, each rendered 32 ways (minimal, full and redundant parentheses x blank layouts), plus to/round/floor/ceil variants and random deeper trees; every rendering must give exactly the reference value of the AST (or an error iff the reference errors); chains of + and - with plain numbers between quantities (grouping observable through the adopted unit); parenthesised casts with several-word targets glued to the closing parenthesis or comma; every kind of blank the tool's own lexer takes into a blank run (15 kinds), in every position of a run, evaluates as plain spaces do.",
          "Trusts the harness renderer's blank policy (blanks may only be dropped between plain numbers, parentheses and commas; + - and `to` always spaced) and the reference evaluator.",
          "DESIGN.md 4/C06"),
  "C07": ("exploration",
@@ -82,7 +82,7 @@ CLAIMED = {
          "DESIGN.md 4/C14, 6"),
  "C15": ("fault_enumeration",
          "fault injection over generated histories: prior directory state x crash point (cfg-guarded process aborts) x follow-up starts, oracle = answers of a fresh in-memory database and meta.json contents",
-         "All 10 prior states x all 8 named crash points with a completing follow-up are enumerated, plus boundary document counts and 500 (quick) / 6000 (thorough) random histories of up to 4 starts; every completing start must answer like a fresh in-memory database and record {current version, current hash}; a crash that leaves meta.json claiming current must not be followed by a wrong answer. 64 (quick) / 112 (thorough) further histories really replace the data files the tool reads between starts (same/different byte size and time stamp, with crash points), each child in a private mount namespace with the data bind-mounted over <repo>/db, judged against a fresh in-memory database under the same data.",
+         "All 13 prior states (incl. stray siblings next to the index and well-formed metadata with odd hash strings) x all 8 named crash points, a small syscall-kill sweep (thorough: the full sweep) with a completing follow-up are enumerated, plus boundary document counts and 500 (quick) / 6000 (thorough) random histories of up to 4 starts; every completing start must answer like a fresh in-memory database and record {current version, current hash}; a crash that leaves meta.json claiming current must not be followed by a wrong answer. 64 (quick) / 112 (thorough) further histories really replace the data files the tool reads between starts (same/different byte size and time stamp, with crash points), each child in a private mount namespace with the data bind-mounted over <repo>/db, judged against a fresh in-memory database under the same data.",
          "Crash = process abort at a hook point between the rebuild steps (hook commit in /repo, cfg anything_verif); torn single writes are modelled only as truncated/garbage meta.json prior states. The data-replacement histories need `unshare -m` and a bind mount (available to root in this sandbox); where they are not, that sub-check is skipped and the evidence says so.",
          "DESIGN.md 4/C15, 7"),
  "C16": ("exploration",
@@ -92,7 +92,7 @@ CLAIMED = {
          "DESIGN.md 4/C16"),
  "C17": ("exploration",
          ENUM + ": all registry units and shipped constants, random compounds/rationals/constants, CBOR and JSON round trips with byte-identical re-encoding",
-         "All 86 units: name -> Compound -> CBOR -> back, the written id equals the id documented in data.toml and a CBOR value hand-built from the documented id decodes to the same unit; every identifier pinned in harness/data/ids_pinned.json (what data written by the pinned build contains) still decodes to the unit of the same name; all 878 shipped constants re-encode and decode equal; every record of sources.bin.gz is reachable by its id in a started database, unchanged; unit expressions with powers at the boundaries of every integer width written and read back (==, Display; no observation through the serialised shape); random compounds (built from documented ids), 2000-bit rationals (CBOR and JSON) and constants round-trip with identical bytes.",
+         "All 86 units: name -> Compound -> CBOR -> back, the written id equals the id documented in data.toml and a CBOR value hand-built from the documented id decodes to the same unit; every identifier pinned in harness/data/ids_pinned.json (what data written by the pinned build contains) still decodes to the unit of the same name; all 878 shipped constants re-encode and decode equal; every record of sources.bin.gz is reachable by its id in a started database, unchanged; unit expressions with powers at the boundaries of every integer width written and read back (==, Display; no observation through the serialised shape); random compounds (built from documented ids), 2000-bit rationals (CBOR and JSON; also as another writer may have stored them, unreduced or with the sign in the denominator: written again and read back they keep their value) and constants round-trip with identical bytes.",
          "Stability oracle: the identifier table committed in /verif (harness/data/ids_pinned.json, taken from the pinned tree and cross-checked against the ids inside the shipped data files); tools/gen/data.toml is only the name registry.",
          "DESIGN.md 4/C17"),
  "C18": ("exploration",
